@@ -56,6 +56,16 @@ func main() {
 			if strings.Contains(fname(f), *dump) {
 				f.WriteTo(os.Stdout)
 				fmt.Println("#", debugHelper(f))
+				if os.Getenv("VCHECK_PATHS") != "" {
+					ps, ok := enumIterPathsU(f, 100000)
+					nl := 0
+					for _, q := range ps {
+						if q.Loop {
+							nl++
+						}
+					}
+					fmt.Printf("# iteration paths: %d (loop-ended %d) ok=%v\n", len(ps), nl, ok)
+				}
 			}
 		}
 		os.Exit(0)
